@@ -1,7 +1,7 @@
 """Which units / lemmas / Kani harnesses decide which property."""
 import importlib
 
-UNIT_MODULES = ['cbc']
+UNIT_MODULES = ['cbc', 'pcbc', 'ige', 'cfb', 'cfb8', 'ofb']
 
 
 def load_units(names=None):
@@ -14,7 +14,8 @@ def load_units(names=None):
 
 # property -> units whose obligations (clauses tagged with the property) decide it
 PROP_UNITS = {
-    'C02': ['cbc'],
+    'C02': ['cbc', 'pcbc', 'ige'],
+    'C03': ['cfb', 'cfb8', 'ofb'],
 }
 
 
